@@ -33,6 +33,8 @@ impl FramedIo {
 // =================================================================================
 // REQ  (src/req.rs)
 // =================================================================================
+//@@ consts src/req.rs
+//@@ consts src/rep.rs
 //@ item src/util.rs :: struct Peer
 //@ end
 //@ item src/req.rs :: struct ReqSocketBackend
@@ -234,6 +236,13 @@ impl RepSocket {
 //@ ret r
 //@ region "for (index, frame) in m.iter().enumerate()"
 //@|                        at = assumed_delimiter_search(&m, at);
+//@ region-text
+//@|                        for (index, frame) in m.iter().enumerate() {
+//@|                            if frame.is_empty() {
+//@|                                at = index + 1;
+//@|                                break;
+//@|                            }
+//@|                        }
 //@ spec
 //@|        ensures
 //@|            rep_received(*old(self), *final(self), r),
@@ -264,8 +273,7 @@ spec fn rep_replied_to(s0: RepSocket, s1: RepSocket, r: ZmqResult<()>, frames: S
     &&& same_except(t0, t1, p)
     &&& t1[p]._identity == t0[p]._identity
     // success <=> envelope ++ reply was written and flushed to p, and to p only
-    &&& r is Ok ==> t1[p].send_queue.sent@.len() == t0[p].send_queue.sent@.len() + 1
-            && t1[p].send_queue.sent@.subrange(0, t0[p].send_queue.sent@.len() as int) =~= t0[p].send_queue.sent@
+    &&& r is Ok ==> flushed_one(t0[p].send_queue, t1[p].send_queue, t1[p].send_queue.sent@.last())
             && t1[p].send_queue.sent@.last() is Message
             && t1[p].send_queue.sent@.last()->Message_0.fr() =~= env + frames
     &&& r is Err ==> t1[p].send_queue.sent@ == t0[p].send_queue.sent@
@@ -312,8 +320,7 @@ spec fn req_sent_to(s0: ReqSocket, s1: ReqSocket, r: ZmqResult<()>, frames: Seq<
     &&& t1[p]._identity == t0[p]._identity
     // success <=> the whole message, behind exactly one empty delimiter, was written and flushed to p
     &&& r is Ok ==> s1.current_request == Some(p)
-            && t1[p].send_queue.sent@.len() == t0[p].send_queue.sent@.len() + 1
-            && t1[p].send_queue.sent@.subrange(0, t0[p].send_queue.sent@.len() as int) =~= t0[p].send_queue.sent@
+            && flushed_one(t0[p].send_queue, t1[p].send_queue, t1[p].send_queue.sent@.last())
             && is_delimited(t1[p].send_queue.sent@.last(), frames)
     &&& r is Err ==> s1.current_request is None && t1[p].send_queue.sent@ == t0[p].send_queue.sent@
 }
